@@ -1,7 +1,9 @@
 (* C12 - hover describes the element under the cursor and its range contains the cursor.
-   Model: Model/Hover.v (hoverAtPos at body level), compared with HoverAtPos on every run. *)
+   Model: Model/Hover.v (hoverAtPos at body level) and Model/ValueHover.v (which sub-expression of a value answers,
+   i.e. the range of the hover data, for every constraint and expression kind), compared with HoverAtPos on every run. *)
 From Coq Require Import String List ZArith Bool.
-From HV Require Import Base.Pos Model.Schema Model.Ast Model.Merge Model.Hover Proofs.HoverProofs.
+From HV Require Import Base.Sexp Base.Pos Model.Schema Model.Ast Model.Merge Model.Hover Model.Origins Model.ValueTokens Model.ValueHover
+                       Proofs.HoverProofs Proofs.ValueTokensProofs Proofs.ValueHoverProofs.
 
 (* whenever hover data is returned for an attribute name, block type or label - at any nesting
    depth - its range contains the cursor *)
@@ -19,3 +21,15 @@ Theorem C12_label_hover_uses_dependent_body : forall i k s ls b dk res,
   exists tail, hover_label i k s = Some (("`" ++ nth i (k_labels k) "" ++ "`" ++ tail)%string).
 Proof. exact label_hover_uses_dependent_body. Qed.
 Print Assumptions C12_label_hover_uses_dependent_body.
+
+(* ---- inside attribute values (Model/ValueHover.v) ---- *)
+
+(* Whenever hover data is returned for a position inside a value its range contains the cursor: for every
+   constraint (any nesting of lists, sets, tuples, maps, objects, one-of, literal types and values, keywords,
+   references, type declarations), every expression shape and any depth.  [wf_s]: the parser's tree nests;
+   [wfh]: a parenthesised object key is the key, a key ends no later than its value. *)
+Theorem C12_value_hover_range_contains_cursor : forall funcs vals parens opens typeok p fuel c e r,
+  wf_s e -> wfh e -> contains_pos (se_rng e) p = true ->
+  value_hover funcs vals parens opens typeok p fuel c e = Some (Some r) -> contains_pos r p = true.
+Proof. exact value_hover_contains_cursor. Qed.
+Print Assumptions C12_value_hover_range_contains_cursor.
